@@ -377,3 +377,129 @@ Proof.
   intros H. unfold lstsq in H. apply wlstsq_sound in H as [N [D [_ [Hacc ->]]]].
   apply accept_spec in Hacc as [HN _]. rewrite length_unscale. exact HN.
 Qed.
+
+(* ---- identical right-hand sides, JOINT rank: no single system needs full column rank, only the stack of
+   all systems that carry positive weight (the situation merge_realizations exists for: few
+   perturbations per realization) ------------------------------------------------------------------------ *)
+Definition joint_rank (n : nat) (sys : list wsystem) : Prop :=
+  forall d, length d = n -> (forall s, In s sys -> 0 < fst s -> vz (mv (fst (snd s)) d)) -> vz d.
+
+Lemma wnormal_identical_joint n sys a g :
+  length g = n -> length a = n -> Forall (wfs n) sys ->
+  (forall s, In s sys -> 0 <= fst s /\ veq (snd (snd s)) (mv (fst (snd s)) a)) ->
+  joint_rank n sys ->
+  vz (wresidual n sys g) -> veq g a.
+Proof.
+  intros Hg Ha Hwf Hdata Hrank Hres.
+  set (d := vsub g a).
+  assert (Hd : length d = n) by (unfold d; rewrite length_vsub; congruence).
+  assert (Hsum : wsumF (fun A _ => rdot (mv A d) (mv A d)) sys == 0).
+  { rewrite <- (rdot_vz_r d _ Hres), (wresidual_test n sys g d Hwf).
+    apply wsumF_ext. intros s Hs. destruct (Hdata s Hs) as [_ Hb].
+    apply rdot_veq; [reflexivity|]. unfold d.
+    rewrite (mv_vsub (fst (snd s)) g a) by congruence. apply vsub_veq; [reflexivity | symmetry; exact Hb]. }
+  apply vsub_vz_veq; [congruence|]. apply Hrank; [exact Hd|].
+  intros s Hs Hpos.
+  assert (Hterm := wsumF_zero_terms (fun A _ => rdot (mv A d) (mv A d)) sys
+            (fun s Hs => conj (proj1 (Hdata s Hs)) (rdot_self_nonneg _)) Hsum s Hs).
+  cbn beta in Hterm.
+  apply rdot_self_zero.
+  apply Qmult_integral in Hterm as [Hterm|Hterm]; [lra | exact Hterm].
+Qed.
+
+(* ---- the accepted vector IS the least-squares solution (also for inconsistent data) -------------------- *)
+(* orthogonality of the residual to the column space: <A k, A g - b> = 0 for every k *)
+Definition orth (A : mat) (b g : vec) : Prop :=
+  forall k, length k = length g -> rdot (mv A k) (vsub (mv A g) b) == 0.
+
+Lemma vsub_split (p q b : vec) : length p = length b -> length q = length b ->
+  veq (vsub p b) (vadd (vsub q b) (vsub p q)).
+Proof.
+  revert q b; induction p as [|x p IH]; intros [|y q] [|z b] H1 H2; cbn in H1, H2; try discriminate;
+    cbn [vsub vadd]; constructor.
+  - rewrite radd_correct, !rsub_correct. ring.
+  - apply IH; congruence.
+Qed.
+
+Lemma rss_pythagoras A b g h : length b = length A -> length h = length g -> orth A b g ->
+  rss A b h == rss A b g + rdot (mv A (vsub h g)) (mv A (vsub h g)).
+Proof.
+  intros Hb Hh Ho. unfold rss. cbv zeta.
+  set (e := vsub (mv A g) b). set (u := mv A (vsub h g)).
+  assert (He : length e = length A) by (unfold e; rewrite length_vsub; rewrite length_mv; congruence).
+  assert (Hu : length u = length A) by (unfold u; apply length_mv).
+  assert (E : veq (vsub (mv A h) b) (vadd e u)).
+  { eapply veq_trans; [apply (vsub_split (mv A h) (mv A g) b); rewrite length_mv; congruence|].
+    apply vadd_veq; [apply veq_refl | apply veq_sym, mv_vsub, Hh]. }
+  rewrite (rdot_veq _ _ _ _ E E).
+  assert (Hcross : rdot u e == 0).
+  { unfold u, e. apply Ho. rewrite length_vsub by exact Hh. exact Hh. }
+  rewrite rdot_vadd_r by congruence.
+  rewrite (rdot_comm (vadd e u) e), (rdot_comm (vadd e u) u), !rdot_vadd_r by congruence.
+  rewrite (rdot_comm e u), Hcross. ring.
+Qed.
+
+Lemma orth_minimal A b g h : length b = length A -> length h = length g -> orth A b g ->
+  rss A b g <= rss A b h.
+Proof.
+  intros Hb Hh Ho. rewrite (rss_pythagoras A b g h Hb Hh Ho).
+  pose proof (rdot_self_nonneg (mv A (vsub h g))). lra.
+Qed.
+
+Lemma orth_unique n A b g g' : full_rank n A -> length g = n -> length g' = n -> length b = length A ->
+  orth A b g -> (forall h, length h = n -> rss A b g' <= rss A b h) -> veq g' g.
+Proof.
+  intros Hrank Hg Hg' Hb Ho Hmin.
+  pose proof (rss_pythagoras A b g g' Hb ltac:(congruence) Ho) as Hp.
+  pose proof (Hmin g Hg) as Hle.
+  pose proof (rdot_self_nonneg (mv A (vsub g' g))) as Hn.
+  apply vsub_vz_veq; [congruence|]. apply Hrank; [rewrite length_vsub; congruence|].
+  apply rdot_self_zero. lra.
+Qed.
+
+(* g = N / D with A^T (A N - D b) = 0 gives the orthogonality of A g - b *)
+Lemma rdot_unscale D (r N : vec) : ~ D == 0 -> rdot r (map (fun k => Qred (k / D)) N) == rdot r N / D.
+Proof.
+  intros HD. revert N; induction r as [|x r IH]; intros [|y N]; cbn [map].
+  - cbn. field. exact HD.
+  - cbn. field. exact HD.
+  - rewrite rdot_nil_r. field. exact HD.
+  - rewrite !rdot_cons, IH, Qred_correct. field. exact HD.
+Qed.
+Lemma scaled_residual D (p q b : vec) : ~ D == 0 -> Forall2 (fun qi pi => qi == pi / D) q p ->
+  veq (vsub p (qscale D b)) (qscale D (vsub q b)).
+Proof.
+  intros HD H. revert b. induction H as [|qi pi q p Hqp _ IH]; intros [|z b]; cbn [qscale map vsub]; try constructor.
+  - rewrite !rsub_correct, Hqp. field. exact HD.
+  - apply IH.
+Qed.
+
+Lemma lstsq_orth n A b g : lstsq n A b = Some g ->
+  wfm n A /\ length b = length A /\ length g = n /\ orth A b g.
+Proof.
+  intros H. unfold lstsq in H. apply wlstsq_sound in H as [N [D [HD [Hacc ->]]]].
+  apply accept_spec in Hacc as [HN [Hwf Hres]]. cbn [scale_rhs map fst snd] in Hwf, Hres.
+  pose proof (Forall_inv Hwf) as [HA Hb]. cbn [fst snd] in HA, Hb. rewrite length_qscale in Hb.
+  split; [exact HA|]. split; [exact Hb|]. split; [rewrite length_unscale; exact HN|].
+  intros k Hk. rewrite length_unscale in Hk.
+  pose proof (wresidual_test n _ N k Hwf) as Ht. rewrite (rdot_vz_r k _ Hres) in Ht.
+  cbn [wsumF] in Ht.
+  assert (E : veq (vsub (mv A N) (qscale D b)) (qscale D (vsub (mv A (map (fun k => Qred (k / D)) N)) b))).
+  { apply scaled_residual; [exact HD|]. clear -HD. induction A as [|r A IH]; cbn [mv map]; constructor; [|exact IH].
+    apply rdot_unscale, HD. }
+  rewrite (rdot_veq _ _ _ _ (veq_refl (mv A k)) E), rdot_qscale_r in Ht.
+  assert (Hz : D * rdot (mv A k) (vsub (mv A (map (fun k0 => Qred (k0 / D)) N)) b) == 0) by lra.
+  apply Qmult_integral in Hz as [Hz|Hz]; [contradiction | exact Hz].
+Qed.
+
+Theorem lstsq_minimal n A b g h : lstsq n A b = Some g -> length h = n -> rss A b g <= rss A b h.
+Proof.
+  intros H Hh. destruct (lstsq_orth n A b g H) as [_ [Hb [Hg Ho]]].
+  apply orth_minimal; [exact Hb | congruence | exact Ho].
+Qed.
+Theorem lstsq_unique_minimiser n A b g g' : full_rank n A -> lstsq n A b = Some g -> length g' = n ->
+  (forall h, length h = n -> rss A b g' <= rss A b h) -> veq g' g.
+Proof.
+  intros Hrank H Hg' Hmin. destruct (lstsq_orth n A b g H) as [_ [Hb [Hg Ho]]].
+  exact (orth_unique n A b g g' Hrank Hg Hg' Hb Ho Hmin).
+Qed.
